@@ -1,3 +1,4 @@
+import GenlmModel.Proofs.GenLink.WfsaCfg
 import Batteries.Tactic.Alias
 import GenlmModel.Proofs.CfgBytes
 import GenlmModel.Proofs.Wfsa2
@@ -28,4 +29,13 @@ alias to_bytes_limit := Genlm.toBytes_PL_tsum
 alias to_bytes_not_encoding_limit := Genlm.toBytes_PL_not_encoding
 alias cfg_to_bytes_limit := Genlm.cfgToBytes_WL
 alias cfg_to_bytes_not_encoding_limit := Genlm.cfgToBytes_WL_not_encoding
+
+/-! ## re-checked tie to the source: the definitions REGENERATED from the Python functions on every run
+(`Generated/Builders.lean` / `Generated/Folds.lean`, by `harness/translate.py`) are the hand-written models the theorems here are about -/
+alias gen_WFSA_to_cfg_eq_model := Genlm.gen_WFSA_to_cfg_eq_model
+alias gen_WFSA_to_cfg_right_eq_model := Genlm.gen_WFSA_to_cfg_right_eq_model
+alias gen_WFSA_to_cfg_default_is_right := Genlm.gen_WFSA_to_cfg_default
+alias gen_WFSA_to_cfg_left_eq_model := Genlm.gen_WFSA_to_cfg_left_eq_model
+alias gen_WFSA_to_cfg_right_derivation_sums := Genlm.gen_WFSA_to_cfg_right_WN
+alias gen_WFSA_to_cfg_left_derivation_sums := Genlm.gen_WFSA_to_cfg_left_WN
 end Genlm.Props.C17
